@@ -95,6 +95,7 @@ class Collector:
         self.counts = collections.Counter()
         self.keys = set()
         self.errors = []
+        self.e3 = []
 
     def candidate(self, case):
         k = json.dumps(case, sort_keys=True, default=str)
@@ -129,6 +130,9 @@ class Collector:
         self.keys |= o.keys
         for e in o.errors:
             self.error(e)
+        for x in getattr(o, "e3", []):
+            if len(self.e3) < 40:
+                self.e3.append(x)
 
 
 class Result:
@@ -177,6 +181,7 @@ def _run_paths(prefixes, slice_s, max_decisions):
     except engine.EngineSignal as s:
         col.error("engine signal escaped: %r" % (s,))
         left = []
+    col.e3 = list(eng.e3_samples)
     return eng.stats.as_dict(), col, cov_lines(), left
 
 
